@@ -65,7 +65,7 @@ structure Dec where
   ev : Int := 100
 deriving Inhabited
 
-/-- `typ` 0 = "ult" -/
+/-- `typ`: 0 "ult", 1 "ult_attack", 2 "ult_skill", anything else another action type -/
 structure UltAsk where
   target : Int
   typ : Nat
@@ -79,6 +79,9 @@ structure Kind where
   ultT : Nat := 3
   spNeed : Int := 1
   spAdd : Int := 1
+  /-- the character has two ultimates (`info.MultiUlt`): the script must say `ult_attack` or
+  `ult_skill`, and the target rule is always lowest HP -/
+  multi : Bool := false
 deriving Inhabited
 
 structure Cfg where
@@ -369,10 +372,14 @@ def executeAction (cfg : Cfg) (s : S α) (id : Int) (isInsert : Bool) : Option (
     let s1 := emit (emit { s with pickN := s.pickN + 1 } (.actionStart id 1 isInsert)) (.pick pt)
     some (emit (endAttack (runProg cfg s1 (cfg.actionP id) id pt)) (.actionEnd id 1 isInsert))
 
+/-- `character.ExecuteUlt` refuses an action type that does not fit the character's ultimate(s) -/
+def ultWrongType (k : Kind) (a : UltAsk) : Bool :=
+  if k.multi then a.typ != 1 && a.typ != 2 else a.typ != 0
+
 /-- `executeUlt` (its errors are dropped by the queue task) -/
 def executeUlt (cfg : Cfg) (s : S α) (a : UltAsk) : S α :=
-  if a.typ != 0 then s else
-  match evaluate cfg s a.target a.ev (cfg.kind a.target).ultT with
+  if ultWrongType (cfg.kind a.target) a then s else
+  match evaluate cfg s a.target (if (cfg.kind a.target).multi then 101 else a.ev) (cfg.kind a.target).ultT with
   | none => s
   | some pt =>
     let s1 := emit s (.actionStart a.target 3 true)
